@@ -125,6 +125,7 @@ func runScenario(c *lib.Ctx, sc scenario) {
 		}
 	}
 	lastID := sc.Base - 1
+	e.onStall = func() { retentionRule(c, e, e.gl.Log(), false) }
 	var holds []held
 	overlaps := 0
 	liveCheck := func(when string) {
@@ -257,27 +258,7 @@ func runScenario(c *lib.Ctx, sc scenario) {
 	liveCheck("end of scenario")
 	log := e.gl.Log()
 
-	// ---- retention rule on the Remove / notify stream
-	var newest uint64
-	for _, ev := range log {
-		switch {
-		case ev.Role == "store" && ev.Op == "write" && ev.ID != 0 && ev.Err == "":
-			if ev.ID > newest {
-				newest = ev.ID
-			}
-			c.Feat("snapshot_writes", 1)
-		case ev.Op == "remove" && ev.ID != 0 && ev.Err == "":
-			c.Feat("snapshot_removes", 1)
-			if ev.ID == newest {
-				c.Violate("removed-newest-snapshot", e.wit("event", ev.String()), "%v removes the snapshot file of checkpoint %d, the newest completed checkpoint", ev, ev.ID)
-			}
-		case ev.Op == "notify":
-			c.Feat("retention_notices", 1)
-			if newest != 0 && !containsID(ev.IDs, newest) {
-				c.Violate("retention-drops-newest", e.wit("event", ev.String()), "%v tells the operators to retain only %v although checkpoint %d has been published", ev, ev.IDs, newest)
-			}
-		}
-	}
+	retentionRule(c, e, log, true)
 
 	// ---- crash after every individual storage operation
 	listingX := lib.Known("snapshot-listing-order")
@@ -337,6 +318,37 @@ func runScenario(c *lib.Ctx, sc scenario) {
 		c.Sample(map[string]any{"scenario": sc.String(), "ops": firstN(stripTicks(e.ops), 40), "storage_log": firstN(fmtEvents(log, 0, true), 40)})
 	}
 	_ = overlaps
+}
+
+// retentionRule: never Remove the newest completely written snapshot; never announce a retained set
+// that omits it.
+func retentionRule(c *lib.Ctx, e *env, log []LocEvent, feats bool) {
+	var newest uint64
+	for _, ev := range log {
+		switch {
+		case ev.Role == "store" && ev.Op == "write" && ev.ID != 0 && ev.Err == "":
+			if ev.ID > newest {
+				newest = ev.ID
+			}
+			if feats {
+				c.Feat("snapshot_writes", 1)
+			}
+		case ev.Op == "remove" && ev.ID != 0 && ev.Err == "":
+			if feats {
+				c.Feat("snapshot_removes", 1)
+			}
+			if ev.ID == newest {
+				c.Violate("removed-newest-snapshot", e.wit("event", ev.String()), "%v removes the snapshot file of checkpoint %d, the newest completed checkpoint", ev, ev.ID)
+			}
+		case ev.Op == "notify":
+			if feats {
+				c.Feat("retention_notices", 1)
+			}
+			if newest != 0 && !containsID(ev.IDs, newest) {
+				c.Violate("retention-drops-newest", e.wit("event", ev.String()), "%v tells the operators to retain only %v although checkpoint %d is the newest completely written one", ev, ev.IDs, newest)
+			}
+		}
+	}
 }
 
 func containsID(ids []uint64, id uint64) bool {
